@@ -549,8 +549,20 @@ class Exec(BlockEval):
             self.env[t.id] = v
         elif isinstance(t, (ast.Tuple, ast.List)):
             vals = list(v)
-            if any(isinstance(e, ast.Starred) for e in t.elts):
-                raise Unknown("starred assignment target")
+            stars = [i for i, e in enumerate(t.elts) if isinstance(e, ast.Starred)]
+            if len(stars) == 1:
+                i = stars[0]
+                after = len(t.elts) - i - 1
+                if len(vals) < len(t.elts) - 1:
+                    raise ValueError(f"not enough values to unpack (expected at least {len(t.elts) - 1}, got {len(vals)})")
+                for a, b in zip(t.elts[:i], vals[:i]):
+                    self._assign(a, b)
+                self._assign(t.elts[i].value, vals[i : len(vals) - after])
+                for a, b in zip(t.elts[i + 1 :], vals[len(vals) - after :]):
+                    self._assign(a, b)
+                return
+            if stars:
+                raise Unknown("more than one starred assignment target")
             if len(vals) != len(t.elts):
                 raise ValueError(f"cannot unpack {len(vals)} values into {len(t.elts)} targets")
             for a, b in zip(t.elts, vals):
